@@ -1,0 +1,12 @@
+//go:build verif
+// +build verif
+
+package flate
+
+import "github.com/intel/fastgo/internal/cpu"
+
+// VerifArchLevel reports the acceleration level in effect (build tag verif only).
+func VerifArchLevel() int { return cpu.ArchLevel }
+
+// VerifGen re-exports the match-finder record of the internal deflate package.
+type VerifGen = deflateVerifGen
